@@ -1058,6 +1058,15 @@ func (e *Engine) makeSlice(st *State, f *Frame, x *ssa.MakeSlice) {
 
 func (e *Engine) convert(st *State, v Value, from, to types.Type) Value {
 	fu, tu := from.Underlying(), to.Underlying()
+	// pointer <-> unsafe.Pointer <-> uintptr round trips (abi.NoEscape) keep the model pointer
+	if pv, isPtr := v.(Ptr); isPtr {
+		if b, ok := tu.(*types.Basic); ok && (b.Kind() == types.UnsafePointer || b.Kind() == types.Uintptr) {
+			return pv
+		}
+		if _, ok := tu.(*types.Pointer); ok {
+			return pv
+		}
+	}
 	if fw, fs, ok := intWidth(from); ok {
 		if tw, _, ok2 := intWidth(to); ok2 {
 			t := v.(*Term)
